@@ -102,7 +102,14 @@ func upgradeByInlining(c *Ctx, spec *propSpec) {
 			bad++
 		}
 	}
-	if bad == 0 || c.P == nil {
+	if c.P == nil {
+		return
+	}
+	// Functions that call a new helper: on the plain view that call is opaque, and a rule that reads result rows or
+	// effects off the caller's own paths has not seen what the helper does (it may panic, loop, or do the work the
+	// rule is about). For these callers the view with the helpers walked through is the one that counts.
+	viaHelper := callersOfNewHelpers(c.P)
+	if bad == 0 && len(viaHelper) == 0 {
 		return
 	}
 	type view struct {
@@ -155,6 +162,9 @@ func upgradeByInlining(c *Ctx, spec *propSpec) {
 		}
 		views = append(views, v)
 		// stop early when everything is resolved
+		if mode == 1 && bad == 0 {
+			break
+		}
 		remaining := 0
 		for _, o := range c.R.Obs {
 			if o.Verdict != Held && v.held[o.Key()] == nil && !v.skipped[o.Construct] {
@@ -172,8 +182,20 @@ func upgradeByInlining(c *Ctx, spec *propSpec) {
 	for _, o := range c.R.Obs {
 		plainKeys[o.Key()] = true
 	}
+	demoted := 0
 	for _, o := range c.R.Obs {
 		if o.Verdict == Held {
+			// held while a new helper's call was opaque: the view with the helper walked through decides
+			if viaHelper[o.Construct] && len(views) > 0 {
+				for _, w := range views[0].obs {
+					if w.Key() == o.Key() && w.Verdict != Held {
+						o.Verdict = w.Verdict
+						o.Msg = w.Msg + " [with the new helper(s) it calls walked through; on the plain view, where those calls are opaque, the rule had nothing to object to]"
+						o.Breaks = w.Breaks
+						demoted++
+					}
+				}
+			}
 			kept = append(kept, o)
 			continue
 		}
@@ -203,11 +225,11 @@ func upgradeByInlining(c *Ctx, spec *propSpec) {
 		_ = done
 	}
 	for i, v := range views {
-		if !usedForHelper[i] {
-			continue
-		}
 		for _, o := range v.obs {
 			if o.Verdict == Held || plainKeys[o.Key()] || v.skipped[o.Construct] {
+				continue
+			}
+			if !usedForHelper[i] && !(i == 0 && viaHelper[o.Construct]) {
 				continue
 			}
 			o.Msg += fmt.Sprintf(" [seen with the new helper(s) inlined, view %d]", i+1)
@@ -228,4 +250,47 @@ func upgradeByInlining(c *Ctx, spec *propSpec) {
 		}
 	}
 	c.R.Analysed["obligations_established_by_inlining"] = upgraded
+	if demoted > 0 {
+		c.R.Analysed["obligations_refuted_with_new_helpers_walked_through"] = demoted
+	}
+}
+
+// callersOfNewHelpers: names of the functions (outside the new helpers themselves) that contain a static call of a
+// new helper, in their body or in one of their closures.
+func callersOfNewHelpers(P *Program) map[string]bool {
+	helpers := newHelpers(P, baselineFuncs())
+	out := map[string]bool{}
+	if len(helpers) == 0 {
+		return out
+	}
+	isHelper := map[*ssa.Function]bool{}
+	for fi := range helpers {
+		isHelper[fi.SSA] = true
+	}
+	for _, g := range P.Funcs {
+		if helpers[g] {
+			continue
+		}
+		for _, fn := range append([]*ssa.Function{g.SSA}, g.Closures...) {
+			for _, b := range fn.Blocks {
+				for _, in := range b.Instrs {
+					ci, ok := in.(ssa.CallInstruction)
+					if !ok {
+						continue
+					}
+					sc := ci.Common().StaticCallee()
+					if sc == nil {
+						continue
+					}
+					if sc.Origin() != nil {
+						sc = sc.Origin()
+					}
+					if isHelper[sc] {
+						out[g.Name] = true
+					}
+				}
+			}
+		}
+	}
+	return out
 }
